@@ -156,3 +156,19 @@ CLAIMS["C15"] = {
             "and that declares every alias exactly once; a RangeError is non-termination on a recursive type.",
     "note": "The oracle is beff's own compiler, as the statement says 'valid TypeScript for beff'. Known findings record hash differences that only come from alias boundaries (see C08/C13).",
 }
+
+# ------------------------------------------------------------------------------------------ C09
+SPEC["C09"] = {
+    "engine": "node",
+    "rule": "cases = (generated program, partition of its declarations into 2-6 files incl. nested directories, .d.ts and .tsx, with per-reference link styles: named / renamed / namespace / type-only / default imports, "
+            "import(\"...\") types, export lists, export * and renamed re-export chains of 1-2 hops; optional name collision; then one broken link). evaluations = projects compiled + parsers compared. "
+            "distinct_nontrivial = distinct (set of link styles, file set, collision?) layouts",
+    "floor": {"quick": 3000, "thorough": 80000},
+}
+CLAIMS["C09"] = {
+    "technique": "metamorphic runtime monitor: single-file program vs. generated multi-file layouts compiled by the real compiler (outcome, validators on a value pool, hash256), plus broken-link fault injection expecting a diagnostic",
+    "text": "Each generated program is compiled as one file and as a project whose declarations are spread over files with randomly chosen import/export styles; both must compile and every parser must give the same verdicts "
+            "(and, up to recorded alias/member-order findings, the same hash256). With two different types given the same name in different files the parsers must still match their single-file counterparts. "
+            "After removing an export, an import or a file that a parser depends on, the project must produce a diagnostic and no code.",
+    "note": "Module resolution is the harness's TypeScript-style probing over a virtual project (.ts/.tsx/.d.ts/index.ts), not tsc's; chokidar / tsconfig paths are out of scope.",
+}
